@@ -71,9 +71,22 @@ def akname(s: str, n: int = 12) -> bytes:
 # file bodies
 # --------------------------------------------------------------------------
 
-def sample_body(f: dict) -> bytes:
+def sample_pcm(f: dict) -> bytes:
+    """All n words of the sample; ``silent_tail`` = k makes the last k words of the played window digital silence."""
     n = f["n"]
     pcm = pcm_bytes(f["key"], n)
+    k = f.get("silent_tail", 0)
+    if k:
+        end = f.get("end", n)
+        a = max(f.get("start", 0) + 4, end - k)          # the head stays attributable
+        if a < end:
+            pcm = pcm[:2 * a] + bytes(2 * (end - a)) + pcm[2 * end:]
+    return pcm
+
+
+def sample_body(f: dict) -> bytes:
+    n = f["n"]
+    pcm = sample_pcm(f)
     start = f.get("start", 0)
     end = f.get("end", n)
     h = bytearray()
@@ -475,7 +488,7 @@ def _build_partition(pi: int, part: dict, base: int) -> Tuple[bytes, PartitionLa
 def expected_pcm(f: dict) -> bytes:
     n = f["n"]
     start, end = f.get("start", 0), f.get("end", n)
-    return pcm_bytes(f["key"], n)[2 * start:2 * end]
+    return sample_pcm(f)[2 * start:2 * end]
 
 
 def expected_rate(f: dict) -> int:
